@@ -252,6 +252,8 @@ def main(run_fn_by_pid, argv):
         if not a.replay and os.environ.get("VERIF_NO_SUITE_TRACES") != "1":
             from . import suitetrace
             suitetrace.stage(ctx, quick=(tier == "quick"))       # traces of the repository's own tests, validated by TLC
+            from . import apptrace
+            apptrace.stage(ctx, quick=(tier == "quick"))         # traces of the repository's applications (same recorder)
         if not a.replay and os.environ.get("VERIF_NO_SIZE_SWEEP") != "1":
             from . import sizesweep
             sizesweep.stage(ctx, quick=(tier == "quick"))        # routines on sizes beyond the exact families
